@@ -22,7 +22,7 @@ QC = "-|+/.<>&ab é日Ж*'_=:()─│┌╭▲字ｗ#" + "\u0301\u200b\u0306\ufe
 TOL = F(0)
 
 
-def build(parts_rows):
+def build(parts_rows, anchor=(2, 12)):
     """rows and blanked rows from [(plain, quoted or None), ...] per row; also the expected texts"""
     rows, blank, exp = [], [], []
     for y, parts in enumerate(parts_rows):
@@ -37,7 +37,7 @@ def build(parts_rows):
                 wq = sum(cw(c) for c in q)
                 row += '"' + q + '"'
                 brow += ' ' * (wq + 2)
-                exp.append(('text', (), F(col * 8 + 2), F(y * 16 + 12), q))
+                exp.append(('text', (), F(col * 8) + anchor[0], F(y * 16) + anchor[1], q))
                 col += wq + 2
         rows.append(row)
         blank.append(brow)
@@ -45,7 +45,7 @@ def build(parts_rows):
 
 
 def check_case(ctx, case):
-    rows, blank, exp = build(case['rows'])
+    rows, blank, exp = build(case['rows'], ctx.anchor())
     r = ctx.conv(gen.text_of(rows))
     rb = ctx.conv(gen.text_of(blank))
     if not (r.ok and rb.ok):
